@@ -2,7 +2,8 @@
  * significant bytes and logs ndjson records for StrTrace.tla.  Destination buffers are exactly sized and sit between
  * canaries ("guard").
  *   strings enum <maxlen> <shard> <nshards> <out>
- *   strings rand <n> <seed> <out> */
+ *   strings rand <n> <seed> <out>
+ *   strings misc <seed> <out>      predicates, number formatting, unique ids, long formatted strings */
 #include "qlibc.h"
 #include "vh.h"
 #include <stdlib.h>
@@ -131,8 +132,114 @@ static void do_all(const unsigned char *s, size_t n) {
     }
 }
 
+/* ---- the remaining routines of qstring.c: formatted append/duplicate, qmemdup, qstrtest, qstrunique, qstr_comma_number,
+ * qstr_is_ip4addr, qstr_is_email (mode "misc") ---- */
+static int in_ab(int c) { unsigned char u = (unsigned char) c; return u == 'a' || u == 'B' || u == 0xE9; }
+static void do_small(const unsigned char *s, size_t n) {
+    char *src = malloc(n + 1); memcpy(src, s, n); src[n] = 0;
+    /* qstrtest with a caller-supplied class */
+    static const unsigned char cls[3] = {'a', 'B', 0xE9};
+    bool t = qstrtest(in_ab, src);
+    head("test", s, n); seq("tok", cls, 3, 1); vh_bprintf(&b, ",\"ok\":%s", vh_bool(t)); tail(strlen(src) == n && !memcmp(src, s, n));
+    /* qmemdup */
+    unsigned char *d = qmemdup(src, n);
+    head("memdup", s, n); vh_bprintf(&b, ",\"ok\":%s", vh_bool(d != NULL)); seq("out", d ? d : (unsigned char *) "", d ? n : 0, 1); tail(1);
+    free(d);
+    /* qstrcatf / qstrdupf: append every suffix of the string to every prefix */
+    for (size_t k = 0; k <= n; k++) {
+        gbuf g = gnew(n + 1, s, k); g.p[k] = 0;
+        char *r = qstrcatf(g.p, "%s", src + k);
+        head("catf", s, k); seq("tok", s + k, n - k, 1); seq("out", (unsigned char *) g.p, strnlen(g.p, n + 1), 1); tail(gok(&g) && r == g.p);
+        gfree(&g);
+        char *pre = malloc(k + 1); memcpy(pre, s, k); pre[k] = 0;
+        char *q = qstrdupf("%s%s", pre, src + k);
+        head("dupf", s, k); seq("tok", s + k, n - k, 1); vh_bprintf(&b, ",\"ok\":%s", vh_bool(q != NULL)); seq("out", (unsigned char *) (q ? q : ""), q ? strlen(q) : 0, 1); tail(1);
+        free(q); free(pre);
+    }
+    free(src);
+}
+static void pred(const char *fn, const char *str, bool (*f)(const char *)) {
+    size_t n = strlen(str); char *src = malloc(n + 1); memcpy(src, str, n + 1);
+    vh_watchdog(10);
+    bool r = f(src);
+    alarm(0);
+    head(fn, (const unsigned char *) str, n); vh_bprintf(&b, ",\"ok\":%s", vh_bool(r)); tail(!memcmp(src, str, n + 1));
+    free(src);
+}
+static void comma(int v) {
+    vh_watchdog(10);
+    char *r = qstr_comma_number(v);
+    alarm(0);
+    unsigned int mag = v < 0 ? 0u - (unsigned int) v : (unsigned int) v;
+    vh_where = "comma"; vh_bprintf(&b, "{\"fn\":\"comma\",\"s\":[],\"neg\":%s,\"q\":%u,\"r\":%u", vh_bool(v < 0), mag / 10, mag % 10);
+    seq("out", (unsigned char *) (r ? r : ""), r ? strlen(r) : 0, 1); tail(r != NULL);
+    free(r);
+}
+static void do_misc(uint32_t seed) {
+    vh_srand(seed * 2654435761u + 11);
+    /* dotted quads: every combination of four parts from a small pool, three and five parts, one odd part among valid ones */
+    static const char *P8[] = {"0", "1", "255", "256", "", "a", "01", "99"};
+    static const char *PV[] = {"0", "10", "255", "7"};
+    static const char *PO[] = {"", "0", "1", "9", "10", "99", "100", "199", "200", "249", "250", "255", "256", "260", "300", "999", "1000", "2147483649", "4294967297",
+                               "a", "1a", "a1", " 1", "1 ", "-1", "+1", "01", "00", "001", "0x1", "1,1", "\t1"};
+    char buf[256];
+    for (int a = 0; a < 8; a++) for (int c = 0; c < 8; c++) for (int d = 0; d < 8; d++) {
+        snprintf(buf, sizeof buf, "%s.%s.%s", P8[a], P8[c], P8[d]); pred("ip4", buf, qstr_is_ip4addr);
+        for (int e = 0; e < 8; e++) {
+            snprintf(buf, sizeof buf, "%s.%s.%s.%s", P8[a], P8[c], P8[d], P8[e]); pred("ip4", buf, qstr_is_ip4addr);
+            if ((a + c + d + e) % 4 == 0) for (int f = 0; f < 8; f++) { snprintf(buf, sizeof buf, "%s.%s.%s.%s.%s", P8[a], P8[c], P8[d], P8[e], P8[f]); pred("ip4", buf, qstr_is_ip4addr); }
+        }
+    }
+    for (int pos = 0; pos < 4; pos++) for (size_t o = 0; o < sizeof PO / sizeof *PO; o++) for (int v = 0; v < 64; v++) {
+        const char *q[4] = {PV[v & 3], PV[(v >> 2) & 3], PV[(v >> 4) & 3], PV[(v + pos) & 3]}; q[pos] = PO[o];
+        snprintf(buf, sizeof buf, "%s.%s.%s.%s", q[0], q[1], q[2], q[3]); pred("ip4", buf, qstr_is_ip4addr);
+    }
+    static const char *odd[] = {"", ".", "..", "...", "....", "1", "1.2", "1.2.3.4.", ".1.2.3.4", "1.2.3.4 ", " 1.2.3.4", "1..2.3", "1.2.3.4\n", "127.0.0.1", "192.168.0.255", "0.0.0.0", "255.255.255.255"};
+    for (size_t i = 0; i < sizeof odd / sizeof *odd; i++) pred("ip4", odd[i], qstr_is_ip4addr);
+    /* e-mail addresses: every string up to length 5 over {a 1 @ . - blank}, and local@domain from pools */
+    static const char EA[6] = {'a', '1', '@', '.', '-', ' '};
+    for (int len = 0; len <= 5; len++) { long total = 1; for (int i = 0; i < len; i++) total *= 6;
+        for (long v = 0; v < total; v++) { long w = v; for (int i = 0; i < len; i++) { buf[i] = EA[w % 6]; w /= 6; } buf[len] = 0; pred("email", buf, qstr_is_email); } }
+    static const char *LO[] = {"ab", "a1", "a-b", "a_b", "a.b", "A9", "", "a b", "a@b", "a+b", "a\xE9", "x"};
+    static const char *DO[] = {"cd.ef", "cd.ef.gh", "c-d.ef", "cd..ef", ".cd.ef", "cd.ef.", "cd", "", "c_d.ef", "cd.e f", "cd.ef@gh.ij", "CD.EF", "12.34", "c.d"};
+    for (size_t i = 0; i < sizeof LO / sizeof *LO; i++) for (size_t j = 0; j < sizeof DO / sizeof *DO; j++) { snprintf(buf, sizeof buf, "%s@%s", LO[i], DO[j]); pred("email", buf, qstr_is_email); }
+    /* numbers with thousands separators: every boundary of the digit count and of int, and seeded random ones */
+    static const int NB[] = {0, 1, 9, 10, 99, 100, 999, 1000, 1001, 9999, 10000, 99999, 100000, 999999, 1000000, 9999999, 10000000, 99999999, 100000000,
+                             999999999, 1000000000, 2147483646, 2147483647};
+    for (size_t i = 0; i < sizeof NB / sizeof *NB; i++) { comma(NB[i]); comma(-NB[i]); }
+    comma(-2147483647 - 1);
+    for (int i = 0; i < 400; i++) { int sh = (int) (vh_rand() % 32); comma((int) (vh_rand() >> sh)); comma(-(int) (vh_rand() >> sh)); }
+    /* unique ids */
+    for (int i = 0; i < 8; i++) {
+        char *u1 = qstrunique(i & 1 ? "seed" : NULL), *u2 = qstrunique(i & 1 ? "seed" : NULL);
+        vh_where = "unique"; vh_bprintf(&b, "{\"fn\":\"unique\",\"s\":[],\"ok\":%s", vh_bool(u1 && u2 && strcmp(u1, u2) != 0));
+        seq("out", (unsigned char *) (u1 ? u1 : ""), u1 ? strlen(u1) : 0, 1); tail(1);
+        free(u1); free(u2);
+    }
+    /* formatted append/duplicate with results around the sizes of the formatting scratch buffer */
+    static const int LN[] = {1020, 1022, 1023, 1024, 1025, 2046, 2047, 2048, 2049, 4095, 4096, 4097};
+    for (size_t i = 0; i < sizeof LN / sizeof *LN; i++) for (int k = 0; k < 2; k++) {
+        size_t n = (size_t) LN[i], pre = k ? 7 : 0;
+        unsigned char *x = malloc(n + 1);
+        for (size_t j = 0; j < n; j++) x[j] = (unsigned char) ('!' + (j * 7 + i) % 90);
+        x[n] = 0;
+        gbuf g = gnew(n + 1, x, pre); g.p[pre] = 0;
+        vh_watchdog(10);
+        char *r = qstrcatf(g.p, "%s", (char *) x + pre);
+        alarm(0);
+        head("catf", x, pre); seq("tok", x + pre, n - pre, 1); seq("out", (unsigned char *) g.p, strnlen(g.p, n + 1), 1); tail(gok(&g) && r == g.p);
+        gfree(&g);
+        char save = (char) x[pre]; char *prefix = malloc(pre + 1); memcpy(prefix, x, pre); prefix[pre] = 0; (void) save;
+        vh_watchdog(10);
+        char *q = qstrdupf("%s%s", prefix, (char *) x + pre);
+        alarm(0);
+        head("dupf", x, pre); seq("tok", x + pre, n - pre, 1); vh_bprintf(&b, ",\"ok\":%s", vh_bool(q != NULL)); seq("out", (unsigned char *) (q ? q : ""), q ? strlen(q) : 0, 1); tail(1);
+        free(q); free(prefix); free(x);
+    }
+}
+
 int main(int argc, char **argv) {
-    if (argc < 5) return 2;
+    if (argc < 4) return 2;
     vh_install_handlers();
     unsigned char x[64];
     if (!strcmp(argv[1], "enum") && argc >= 6) {
@@ -144,7 +251,7 @@ int main(int argc, char **argv) {
             for (long v = 0; v < total; v++, idx++) {
                 if (idx % nsh != shard) continue;
                 long w = v; for (int i = 0; i < len; i++) { x[i] = AL[w % 9]; w /= 9; }
-                vh_watchdog(10); do_all(x, (size_t) len); alarm(0);
+                vh_watchdog(10); do_all(x, (size_t) len); do_small(x, (size_t) len); alarm(0);
             }
         }
     } else if (!strcmp(argv[1], "rand")) {
@@ -153,8 +260,11 @@ int main(int argc, char **argv) {
         for (int i = 0; i < n; i++) {
             size_t len = 5 + vh_rand() % 40;
             for (size_t j = 0; j < len; j++) x[j] = (vh_rand() % 3) ? AL[vh_rand() % 9] : (unsigned char) (1 + vh_rand() % 255);
-            vh_watchdog(10); do_all(x, len); alarm(0);
+            vh_watchdog(10); do_all(x, len); do_small(x, len); alarm(0);
         }
+    } else if (!strcmp(argv[1], "misc")) {
+        vh_open(argv[3]);
+        do_misc((uint32_t) atoi(argv[2]));
     } else return 2;
     vh_close();
     exit(0);
